@@ -15,6 +15,32 @@ ASSUMPTIONS = ["puan_rspy 0.3.0 binary is part of the system under test",
                "large leaf boxes are sampled (boundary/threshold biased), not enumerated"]
 
 
+def _twins(spec):
+    import copy
+    leaves = {}
+    for n in oracle.spec_nodes(spec):
+        if n["k"] == "leaf" and tuple(n["b"]) != (0, 1):
+            leaves.setdefault(n["id"], tuple(n["b"]))
+    out = []
+    for lid, (lo, hi) in sorted(leaves.items())[:2]:
+        cands = []
+        if hi - lo >= 2:
+            cands.append((lo + 1, hi - 1))
+        if lo - 1 >= -32768 and hi + 1 <= 32767:
+            cands.append((lo - 1, hi + 1))
+        if lo == -1:
+            cands.append((-2, hi))
+        elif lo == -2:
+            cands.append((-1, hi))
+        for b in cands:
+            tw = copy.deepcopy(spec)
+            for n in oracle.spec_nodes(tw):
+                if n["k"] == "leaf" and n["id"] == lid:
+                    n["b"] = list(b)
+            out.append(tw)
+    return out[:3]
+
+
 def check_model(case, ev, max_eval=6):
     spec = case["model"]
     m = common.build_valid(case, ev)
@@ -26,6 +52,21 @@ def check_model(case, ev, max_eval=6):
     if any(i in lv for i in comps):
         ev.count("discarded_by_reference_atom")
         return
+    # Twins first: models with the same ids, shape, values and signs that differ only in one integer leaf's bounds
+    # (narrower / wider with the same lower+upper, or lower bound -1 <-> -2) are converted BEFORE the model under test, so a
+    # conversion that is remembered per "equal" proposition rather than per definition hands this model a twin's system.
+    n_twins = 0
+    for tw in _twins(spec):
+        try:
+            t_obj = build.model(tw)
+            if not t_obj.errors():
+                t_obj.to_ge_polyhedron(True)
+                t_obj.to_ge_polyhedron(False)
+                n_twins += 1
+        except BaseException as e:  # noqa  (twins only warm up state; they are not judged here)
+            if isinstance(e, (KeyboardInterrupt, SystemExit)):
+                raise
+    ev.count("twins_converted_first", n_twins)
     pa = call(m.to_ge_polyhedron, True, what="to_ge_polyhedron(active=True)")
     pi = call(m.to_ge_polyhedron, False, what="to_ge_polyhedron(active=False)")
     all_ids = set(lv) | set(comps)
